@@ -155,7 +155,7 @@ Recover ==
                     IN /\ known' = st1.known /\ kids' = st1.kids /\ tip' = st1.tip /\ utxo' = st1.utxo /\ undo' = st1.undo
                        /\ idxF' = MarkInv(idxF, Range(st1.failed))
                        /\ panicked' = ""
-    /\ crashed' = FALSE /\ tmpF' = {}
+    /\ crashed' = (panicked' # "") /\ tmpF' = {}      \* a restart that panics leaves no running node
     /\ nDeliv' = nDeliv /\ balOn' = balOn /\ flushed' = known' /\ last' = [accepted |-> FALSE, later |-> FALSE, viol |-> {}]
     /\ UNCHANGED <<queue, datW, dbF, oldF, saver, writers, nSaves, nCrashes, wpc>>
 
